@@ -1,5 +1,11 @@
 //! Private module for selective re-export.
 
+#[cfg(all(getong_stateright_verif, not(test)))]
+use crate::verif_hooks::std_shim as std;
+#[cfg(all(getong_stateright_verif, not(test)))]
+use crate::verif_hooks::rand_shim as rand;
+#[cfg(all(getong_stateright_verif, not(test)))]
+use crate::verif_hooks::crossbeam_utils_shim as crossbeam_utils;
 use crate::actor::*;
 use crossbeam_utils::thread;
 use std::collections::HashMap;
